@@ -3,6 +3,9 @@ import Mathlib.Analysis.Calculus.Deriv.Add
 import Mathlib.Analysis.Calculus.Deriv.Mul
 import Mathlib.Analysis.Calculus.Deriv.Pow
 import DirectVerif.Lemmas.C19Term
+import DirectVerif.Lemmas.C19Batch
+import DirectVerif.Lemmas.C19Sites
+import DirectVerif.Lemmas.C19Unnorm
 /-!
 # C19 — data-consistency blocks implement the MRI physics exactly
 
@@ -317,6 +320,69 @@ theorem normal_equations_unique (x x' : E)
   exact sub_eq_zero.mp this
 
 end
+/-! ## ConjGrad with the un-normalised operator pair -/
+
+/-- **`normalized=False`** (`backward = d² · adjoint(forward)`, `d² = 1/N`): `ConjGrad.forward` is the conjugate-gradient
+run for the adjoint pair `(d F, d F†)` on data `d y`; it never increases
+`½(d²‖M F E x − M y‖² + λ‖x − z‖²)` over its start and (by `cg_finite_termination` for that pair) solves
+`(d² A†A + λ) x = d² A† y + λ z`. -/
+theorem conjGrad_unnormalised_never_worse {Fa : G →ₗ[ℂ] G} (P : Physics F Fa Ex R M) (d lam : ℝ) (hl : 0 < lam)
+    (y : G) (z : E) (u : Update) (hu : u = .FR ∨ u = .PRP) (n : ℕ) (stop : ℂ → Bool) :
+    objective ((d : ℂ) • F) Ex M lam ((d : ℂ) • y) z
+        (conjGradForward (mathOps F (((d : ℂ) * (d : ℂ)) • Fa) Ex R M) u n stop (lam : ℂ) y z) ≤
+      objective ((d : ℂ) • F) Ex M lam ((d : ℂ) • y) z z := by
+  have e : conjGradForward (mathOps F (((d : ℂ) * (d : ℂ)) • Fa) Ex R M) u n stop (lam : ℂ) y z =
+      conjGradForward (mathOps ((d : ℂ) • F) ((d : ℂ) • Fa) Ex R M) u n stop (lam : ℂ) ((d : ℂ) • y) z :=
+    cg_unnormalised d u n stop (lam : ℂ) z z y
+  rw [e]
+  exact conjGrad_objective_never_worse (physics_scaled P d) lam hl ((d : ℂ) • y) z u hu n stop
+
+/-! ## ConjGrad on a batch -/
+section Batch
+
+/-- one sample of a batch over Mathlib's spaces (each sample has its own sensitivity map and mask) -/
+structure MathSample (E : Type*) (G : Type*) [NormedAddCommGroup E] [InnerProductSpace ℂ E]
+    [NormedAddCommGroup G] [InnerProductSpace ℂ G] where
+  F : G →ₗ[ℂ] G
+  Fb : G →ₗ[ℂ] G
+  Ex : E →ₗ[ℂ] G
+  R : G →ₗ[ℂ] E
+  M : G →ₗ[ℂ] G
+  x0 : E
+  y : G
+  z : E
+
+noncomputable def MathSample.toSample (m : MathSample E G) : Sample ℂ E G :=
+  { o := mathOps m.F m.Fb m.Ex m.R m.M, x0 := m.x0, y := m.y, z := m.z }
+
+/-- **per sample, `ConjGrad.cg` on a batch is never worse than that sample's starting point** — although the pass
+at which the loop is left is decided by the batch mean of the residual norms (`cg_batch_mean_stop`), every sample's
+output is one of its own iterates, and every iterate is no worse than the start. -/
+theorem cg_batch_never_worse (ms : List (MathSample E G)) (hP : ∀ m ∈ ms, Physics m.F m.Fb m.Ex m.R m.M)
+    (lam : ℝ) (hl : 0 < lam) (u : Update) (hu : u = .FR ∨ u = .PRP) (n : ℕ) (stopB : List ℂ → Bool)
+    (b : ℕ) (m : MathSample E G) (hb : ms[b]? = some m) :
+    ∃ xb, (cgBatch u n stopB (lam : ℂ) (ms.map MathSample.toSample))[b]? = some xb ∧
+      cgEnergy m.F m.Fb m.Ex m.R m.M lam m.y m.z xb ≤ cgEnergy m.F m.Fb m.Ex m.R m.M lam m.y m.z m.x0 := by
+  obtain ⟨j, _, hj⟩ := cgBatch_per_sample u n stopB (lam : ℂ) (ms.map MathSample.toSample)
+  have hs : (ms.map MathSample.toSample)[b]? = some m.toSample := by simp [hb]
+  refine ⟨_, hj b m.toSample hs, ?_⟩
+  exact cg_energy_le_start (hP m (List.mem_of_getElem? hb)) lam hl m.y m.z m.x0 u hu j
+
+/-- the same in terms of the objective `½(‖A x − M y‖² + λ‖x − z‖²)` of each sample -/
+theorem cg_batch_objective_never_worse (ms : List (MathSample E G)) (hP : ∀ m ∈ ms, Physics m.F m.Fb m.Ex m.R m.M)
+    (lam : ℝ) (hl : 0 < lam) (u : Update) (hu : u = .FR ∨ u = .PRP) (n : ℕ) (stopB : List ℂ → Bool)
+    (b : ℕ) (m : MathSample E G) (hb : ms[b]? = some m) :
+    ∃ xb, (cgBatch u n stopB (lam : ℂ) (ms.map MathSample.toSample))[b]? = some xb ∧
+      objective m.F m.Ex m.M lam m.y m.z xb ≤ objective m.F m.Ex m.M lam m.y m.z m.x0 := by
+  obtain ⟨xb, e, h⟩ := cg_batch_never_worse ms hP lam hl u hu n stopB b m hb
+  refine ⟨xb, e, ?_⟩
+  have P := hP m (List.mem_of_getElem? hb)
+  rw [cgEnergy_eq_objective P, cgEnergy_eq_objective P] at h
+  unfold objective
+  linarith
+
+end Batch
+
 /-! ## The hypotheses are satisfiable (non-vacuity) -/
 section Examples
 
@@ -358,6 +424,14 @@ example (y z : ℂ) :=
   conjGrad_objective_never_worse physics_example 10 (by norm_num) y z .FR (Or.inl rfl) 10 (fun _ => false)
 example (y z x0 : ℂ) := cg_finite_termination physics_example 1 one_pos y z x0 .PRP (Or.inr rfl)
 example (y z x0 : ℂ) := cg_prp_eq_fr physics_example 1 one_pos y z x0 5
+example (x0 y z : ℂ) :=
+  cg_batch_never_worse
+    [⟨Complex.I • LinearMap.id, (-Complex.I) • LinearMap.id, (2 + Complex.I) • LinearMap.id, (2 - Complex.I) • LinearMap.id,
+      LinearMap.id, x0, y, z⟩]
+    (by intro m hm; simp only [List.mem_singleton] at hm; subst hm; exact physics_example)
+    1 one_pos .FR (Or.inl rfl) 10 (fun _ => false) 0 _ rfl
+example (x y : ℂ) := dcGradAfter_eq_loglik physics_example x y
+example (x y : ℂ) := hardDC_sampled (fun _ w => w) physics_example x y
 
 end Examples
 
